@@ -257,25 +257,24 @@ def norm_slice(r, n):
 
 
 def well_formed(case, vals):
-    """Requests that must be accepted: no region or region with step 1, non-negative in-range bounds, aligned with the
-    target chunks, matching shape and matching chunking; targets distinct or disjoint."""
+    """Requests that must be accepted: no region into a path / an existing array of the source's shape (any
+    chunking); a region tuple with one slice per axis, step None/1, whose *normalised* bounds are aligned with the
+    target chunks (stop may be the end) and select exactly the source's shape (any source chunking)."""
     for pr in case["pairs"]:
         t = pr["target"]
         v = vals[pr["src"]]
-        if pr["region"] is None:
-            if t["kind"] == "array" and (list(t["shape"]) != list(v.shape) or t.get("shards")):
+        full = pr["region"] is not None and all(tuple(r) == (None, None, None) for r in pr["region"])
+        if pr["region"] is None or full:
+            if t["kind"] == "array" and list(t["shape"]) != list(v.shape):
                 return False
             continue
-        if t["kind"] != "array" or t.get("shards") or len(pr["region"]) != len(t["shape"]):
+        if t["kind"] != "array" or len(pr["region"]) != len(t["shape"]):
             return False
         for (s, e, st), n, cs, m in zip(pr["region"], t["shape"], t["chunks"], v.shape):
             if st not in (None, 1):
                 return False
-            s0 = 0 if s is None else s
-            e0 = n if e is None else e
-            if s0 < 0 or e0 < 0 or e0 > n or s0 > e0:
-                return False
-            if s0 % cs or (e0 % cs and e0 != n) or e0 - s0 != m:
+            s0, e0, _ = slice(s, e, None).indices(n)
+            if s0 % cs or (e0 % cs and e0 != n) or max(0, e0 - s0) != m:
                 return False
     return True
 
@@ -378,11 +377,6 @@ def run_case(env, case):
 # classifiers for the known genuine defects (on the case description + observed laziness/deps only)
 # ------------------------------------------------------------------------------------------------
 
-def _boundaries(start, stop, first, size):
-    """block boundaries strictly inside (start, stop) of a grid whose blocks start at `first` with length `size`"""
-    return {b for b in range(first, stop, size) if start < b < stop}
-
-
 def classify(case, info):
     """Name of the known defect whose triggering condition the case satisfies, or None."""
     pairs = case["pairs"]
@@ -396,60 +390,58 @@ def classify(case, info):
         return p["region"] is None or all(tuple(r) == (None, None, None) for r in p["region"])
 
     def shard_rechunk(p):
-        # `_store_array` stores `source.rechunk(target.shards)` - a new array derived from the source, unless the
-        # (normalised) chunks are already those, in which case `rechunk` returns the source itself
+        """`_store_array` does not store the source itself but a rechunked array derived from it (which reads the source
+        where it was going to be written at that moment): shard branch, no-region store into an existing array whose
+        chunks the source chunks do not cover, region store with another chunking.  `rechunk` to the chunks the source
+        already has returns the source itself."""
         t = p["target"]
-        if t["kind"] != "array" or not t.get("shards"):
+        if t["kind"] != "array":
             return False
-        return [min(sh, n) for sh, n in zip(t["shards"], case["shape"])] != info["src_chunks"][p["src"]]
+        sc = info["src_chunks"][p["src"]]
+        shape = case["shape"]
+        if t.get("shards") and [min(sh, n) for sh, n in zip(t["shards"], shape)] != sc:
+            return True
+        if noregion(p):
+            if t.get("shards"):
+                return False
+            return not all(c % tc == 0 or c >= n for n, c, tc in zip(shape, sc, t["chunks"]))
+        return [min(tc, n) for tc, n in zip(t["chunks"], shape)] != sc
 
     # pairs that re-target their (lazy) source in place
-    moves = [(k, sid(p)) for k, p in enumerate(pairs) if lazy[p["src"]] and noregion(p) and not shard_rechunk(p)]
+    # (a source re-targeted into an *existing* array is no longer lazy for the pairs that follow: they copy from there)
+    moves, still_lazy = [], {}
+    for k, p in enumerate(pairs):
+        if lazy[p["src"]] and still_lazy.get(sid(p), True) and noregion(p) and not shard_rechunk(p):
+            moves.append((k, sid(p)))
+            if p["target"]["kind"] == "array":
+                still_lazy[sid(p)] = False
     # (c) the same lazy source again, re-targeted later: the earlier pair loses its location
     for j, s_ in moves:
         for i in range(j):
             if sid(pairs[i]) == s_:
                 return "store-lazy-source-with-dependant" if shard_rechunk(pairs[i]) else "store-lazy-source-twice"
+    # a lazy source re-targeted into an existing array chunked differently, then used again: the later op reads it
+    # back by the stored chunking
+    for i, s_ in moves:
+        t = pairs[i]["target"]
+        if t["kind"] == "array" and not t.get("shards") and list(t["chunks"]) != info["src_chunks"][pairs[i]["src"]]:
+            for j in range(i + 1, len(pairs)):
+                if sid(pairs[j]) == s_:
+                    return "store-lazy-source-retargeted-other-chunks"
     # a re-targeted lazy source with a dependant among the (effective) listed sources
     moved = {s_ for _, s_ in moves}
     for p in pairs:
         eff = [ident[d] for d in deps[p["src"]]]
         if any(d in moved for d in eff):
             return "store-lazy-source-with-dependant"
-    for p in pairs:
-        t = p["target"]
-        src_chunks = info["src_chunks"][p["src"]]
-        region = p["region"]
-        full = region is not None and all(tuple(r) == (None, None, None) for r in region)
-        if region is not None and not full:
-            if t["kind"] != "array":
-                continue
-            # a region that the unchanged code rejects (misaligned by its own rule, or of another shape than the
-            # source) is never explained by a known defect: if it was accepted, something else is broken
-            shape = case["shape"]
-            for k, ((s, e, st), n, cs) in enumerate(zip(region, t["shape"], t["chunks"])):
-                if (s is not None and s % cs != 0) or (e is not None and e % cs != 0 and e != n):
-                    return None
-                if len(region) == len(t["shape"]) and len(range(*slice(s, e, st).indices(n))) != shape[k]:
-                    return None
-            if any(r[2] not in (None, 1) for r in region):
-                return "region-step-ignored"
-            if len(region) < len(t["shape"]):
-                return "region-short-tuple"
-            if any((r[0] is not None and r[0] < 0) or (r[1] is not None and r[1] < 0) for r in region):
-                return "region-negative-bound"
-            eff = list(t["shards"]) if t.get("shards") and list(t["shards"]) != src_chunks else src_chunks
-            for (s, e, _), n, cs, sc in zip(region, t["shape"], t["chunks"], eff):
-                s0, e0, _ = norm_slice((s, e, None), n)
-                if _boundaries(s0, e0, s0, sc) != _boundaries(s0, e0, (s0 // cs) * cs, cs):
-                    return "region-chunk-mismatch"
-        else:
-            if t["kind"] == "array":
-                shape = case["shape"]
-                if list(t["shape"]) != list(shape):
-                    return "store-shape-mismatch-unchecked"
-                if not t.get("shards") and list(t["chunks"]) != src_chunks:
-                    return "store-existing-target-other-chunks"
+    # region store into a sharded array: one task per *inner* chunk, so several tasks read-modify-write the same
+    # shard - lost updates under a parallel executor (values are right on the single-threaded executor)
+    if case["executor"] == "threads":
+        for p in pairs:
+            t = p["target"]
+            if t["kind"] == "array" and t.get("shards") and p["region"] is not None and not noregion(p) \
+                    and list(t["shards"]) != list(t["chunks"]):
+                return "region-sharded-target-shared-shard"
     return None
 
 
